@@ -120,6 +120,13 @@ def run_family(ctx, n_quick, n_thorough, maxv_quick=9, maxv_thorough=14):
     out = ctx.harness(["search", "--random", str(n), "--maxv", str(maxv_quick if quick else maxv_thorough),
                        "--focus", pid.lower()], timeout=1800)
     scns += common.split_scenarios(out)
+    # the same kind of scenario submitted as a query through a CompassApp built from a configuration file and input
+    # files; only the response is recorded (black box) and TLC looks for a behaviour of Search that ends in it
+    out = ctx.harness(["appsearch", "--random", str(400 if quick else 6000), "--maxv", str(7 if quick else 10),
+                       "--focus", pid.lower()], timeout=3000)
+    app_scns = common.split_scenarios(out)
+    ctx.extra["application_level_scenarios"] = len(app_scns)
+    scns += app_scns
     for s, evs in scns:
         if nontrivial_search(s, evs, pid):
             ctx.note_nontrivial(common.chash(s))
